@@ -3,3 +3,4 @@ import XsModel.Part
 import XsModel.Frame
 import XsModel.Store
 import XsModel.Run
+import XsModel.Follow
